@@ -226,6 +226,7 @@ func scTCPPair(c Case, fc *frameCtx) *evid.Failure {
 
 func scTCPRaw(c Case, fc *frameCtx) *evid.Failure {
 	env := rawpeer.NewEnv(rawpeer.EnvCfg{V6: c.V6, MTU: c.MTU, SACK: c.SACK})
+	defer env.Close()
 	l, err := env.Listen(80, 8)
 	if err != nil {
 		return nil
@@ -287,6 +288,7 @@ func zeroSumPayload(src, dst []byte, sp, dp uint16, n int, seed uint64) []byte {
 func scUDP(c Case, fc *frameCtx) *evid.Failure {
 	tap := netsim.NewTap(uint32(c.MTU))
 	st := netsim.NewStack(tap, netsim.StackCfg{Addrs4: []tcpip.Address{netsim.A4}, Addrs6: []tcpip.Address{netsim.A6}})
+	defer netsim.ReleaseStack(st, tap)
 	net := tcpip.NetworkProtocolNumber(ipv4.ProtocolNumber)
 	me, peer := netsim.A4, netsim.B4
 	if c.V6 {
@@ -334,7 +336,8 @@ func scUDP(c Case, fc *frameCtx) *evid.Failure {
 
 func scEcho(c Case, fc *frameCtx) *evid.Failure {
 	tap := netsim.NewTap(uint32(c.MTU))
-	netsim.NewStack(tap, netsim.StackCfg{Addrs4: []tcpip.Address{netsim.A4, netsim.C4}, Addrs6: []tcpip.Address{netsim.A6, netsim.C6}})
+	est := netsim.NewStack(tap, netsim.StackCfg{Addrs4: []tcpip.Address{netsim.A4, netsim.C4}, Addrs6: []tcpip.Address{netsim.A6, netsim.C6}})
+	defer netsim.ReleaseStack(est, tap)
 	for i, n := range c.Sizes {
 		target4, target6 := []byte(netsim.A4), []byte(netsim.A6)
 		if i%2 == 1 {
@@ -363,6 +366,7 @@ func scEcho(c Case, fc *frameCtx) *evid.Failure {
 
 func scStray(c Case, fc *frameCtx) *evid.Failure {
 	env := rawpeer.NewEnv(rawpeer.EnvCfg{V6: c.V6, MTU: c.MTU})
+	defer env.Close()
 	p := env.Peer(81, 50001, uint32(c.Seed))
 	for i, n := range c.Sizes {
 		fl := []uint8{codec.SYN, codec.ACK, codec.FIN | codec.ACK, codec.SYN | codec.ACK, codec.PSH | codec.ACK, 0}[i%6]
@@ -486,6 +490,7 @@ func scRoutes(c Case, fc *frameCtx) *evid.Failure {
 	s := stack.New([]string{ipv4.ProtocolName, ipv6.ProtocolName}, []string{tcp.ProtocolName, udp.ProtocolName}, stack.Options{})
 	s.CreateNIC(1, stack.RegisterLinkEndpoint(t1))
 	s.CreateNIC(2, stack.RegisterLinkEndpoint(t2))
+	defer netsim.ReleaseStack(s, t1, t2)
 	n1a, n2a := tcpip.Address("\x0a\x00\x00\x01"), tcpip.Address("\x0a\x01\x00\x01")
 	s.AddAddress(1, ipv4.ProtocolNumber, n1a)
 	s.AddAddress(2, ipv4.ProtocolNumber, n2a)
